@@ -27,6 +27,27 @@ def sh(cmd, cwd=None, env=None, timeout=3600):
     except subprocess.TimeoutExpired as ex:
         return 124, (ex.stdout or b"").decode(errors="replace") if isinstance(ex.stdout, bytes) else (ex.stdout or "")
 
+def _edit(path, fn):
+    t = open(path).read()
+    t2 = fn(t)
+    assert t2 != t, f"manual revert did not change {path}"
+    open(path, "w").write(t2)
+
+def _undo_d8e7889(wt):
+    def f(t):
+        t = t.replace("\t\tlet loop_region = loop_region.filter(|(loop_start, loop_end)| loop_end > loop_start);\n", "")
+        t = re.sub(r"\t\tself\.loop_region = self\n\t\t\t\.loop_region\n\t\t\t\.filter\(\|\(loop_start, loop_end\)\| loop_end > loop_start\);\n", "", t)
+        return t
+    _edit(f"{wt}/crates/kira/src/sound/transport.rs", f)
+
+def _undo_e35db9a(wt):
+    _edit(f"{wt}/crates/kira/src/backend/resources.rs", lambda t: re.sub(r"\t\tif self\.arena_controller\.capacity\(\) == 0 \{\n\t\t\treturn Err\(ResourceLimitReached\);\n\t\t\}\n", "", t))
+
+def _undo_ee09491(wt):
+    _edit(f"{wt}/crates/kira/src/sound/streaming/sound/decode_scheduler.rs", lambda t: re.sub(r"(crate::verif::point\(\"decode_error\"[^\n]*\n)(\t\t\t\t\t//[^\n]*\n)+\t\t\t\t\tbreak;\n", r"\1", t))
+
+MANUAL = {"d8e7889": _undo_d8e7889, "e35db9a": _undo_e35db9a, "ee09491": _undo_ee09491}
+
 def entries():
     out = []
     for line in open("/verif/KNOWN_FINDINGS.txt"):
@@ -57,6 +78,14 @@ def main():
             rc, o = sh(f"git -C /repo worktree add -q --detach {WT} HEAD")
             assert rc == 0, o
             rc, o = sh(f"git revert -n {c}", cwd=WT)
+            if rc != 0 and c in MANUAL:
+                # later commits touched the same lines: undo the fix by hand
+                sh("git revert --abort; git checkout -q -- . ; git clean -fdq", cwd=WT)
+                try:
+                    MANUAL[c](WT)
+                    rc = 0
+                except Exception as ex:
+                    rc, o = 1, str(ex)
             if rc != 0:
                 for e in [e for e in es if e["commit"] == c]:
                     results.append(dict(e, status="revert-does-not-apply"))
